@@ -58,12 +58,14 @@ def run(run: Run):
 def falsify(run, group, info):
     from props import C18_native as N
     if group.startswith("uuid4.populate") or group == "*":
-        f = N.population_scenarios()
+        from vf.genlab import run_isolated
+        f = run_isolated("props.C18_native", "population_scenarios")
         run.bounded.append({"what": "falsifier: generated library driven over a loopback channel (unset/empty/set x plain/optional field x message/dict)", "cases": 12})
         if f:
             return {"kind": "population", "failures": f[:5]}, True
     if group.startswith("API.") or group == "*":
-        f = N.validator_scenarios()
+        from vf.genlab import run_isolated
+        f = run_isolated("props.C18_native", "validator_scenarios")
         run.bounded.append({"what": "falsifier: method-settings corpus through the real generation path", "cases": len(N.settings_corpus())})
         if f:
             return {"kind": "validator", "failures": f[:5]}, True
@@ -78,6 +80,7 @@ def replay(path):
     if kind is None:
         print("no concrete input in replay file (no-failing-input-found); verifier output:", json.dumps(doc.get("open"))[:1500])
         return 1
-    f = N.population_scenarios() if kind == "population" else N.validator_scenarios()
+    from vf.genlab import run_isolated
+    f = run_isolated("props.C18_native", "population_scenarios" if kind == "population" else "validator_scenarios")
     print("replayed", kind, "->", "FAILS " + json.dumps(f[:3]) if f else "conforms")
     return 1 if f else 0
